@@ -13,6 +13,7 @@ func init() {
 		Explanation: "Resource typestate/pairing on every path: R12.1 Submit derives the request context from WithTimeout/WithCancel of (operation.Context, else Runtime.Context, else Background), defers its cancel before any later return and sends the request under that context; R12.2 on the success edge of client.Do the response body's Close is deferred before any further return; " +
 			"R12.3 the multipart pipe is never orphaned: once the writer goroutine is started, every error return of buildHTTP releases the read end (a deferred guard that closes it unless the request was built, armed before the go statement, and disarmed only on the success return); R12.4 in the goroutine the closing of ALL upload files and of the pipe writer is registered before anything can fail, and every failing step reaches pw.CloseWithError (a failing upload source can never look like a complete body); " +
 			"R12.5 keep-alive body: Close always closes the wrapped body and returns its error, drains only when the end was not seen, the end is recorded only on io.EOF or a zero-byte read, and the transport wraps only successful responses; R12.6 the only goroutines started by client calls are the multipart writer (and the CSV producer's errgroup). " +
+			"R12.5 also: every successful response leaves the keep-alive RoundTrip with its body wrapped (only a nil or http.NoBody body may stay unwrapped). " +
 			"NOT decided: wall-clock bounds, behaviour of net/http and of servers.",
 		Run: runC12,
 	})
